@@ -45,6 +45,16 @@ Theorem C16_sound : forall incoming name supported,
     SM = PM /\ Pm <= Sm.
 Proof. exact match_sound. Qed.
 Print Assumptions C16_sound.
+(* Routing among the descriptors a node registered (pairwise distinct names, as the three protocols of the
+   node are): an identifier is matched by at most one of them, so "routed to a protocol handler exactly when
+   ..." names a unique handler.  The correspondence check drives this through two real services (class
+   "routing": several descriptors registered in one AddStreamHandlers call and in separate calls). *)
+Theorem C16_route_unique : forall (descs : list (bytes * bytes)) incoming d1 d2,
+  NoDup (map fst descs) -> In d1 descs -> In d2 descs ->
+  match_id incoming (fst d1) (snd d1) = Match -> match_id incoming (fst d2) (snd d2) = Match -> d1 = d2.
+Proof. exact route_unique. Qed.
+Print Assumptions C16_route_unique.
+
 (* "No identifier crashes the node": [match_id] is a total function into a type without a
    crash outcome because the Go function indexes only parts[1], parts[2] after checking
    len(parts) = 3; the absence of panics in the implementation (incl. the version library)
